@@ -103,7 +103,7 @@ COMPARISON_HEAVY = dict(
     p_tick0=0.3, p_tick_back=0.1, n_steps=(3, 7), p_mutate_step=0.45,
     n_muts=(1, 2), p_tamper=0.6, n_groups=(1, 1), n_paths=(3, 6),
     query_kinds=['read_text', 'read_binary', 'declare_read', 'get_size',
-                 'exists'],
+                 'exists', 'list_dir', 'walk', 'read_text', 'declare_read'],
     p_q_near_output=0.7, n_init=(1, 4), p_catch=0.8, w_raise=3,
     p_version_change=0.0, p_clean_step=0.0)
 REFUSE_HEAVY = dict(
